@@ -83,6 +83,9 @@ pub struct RecCase {
   pub shares: Vec<Base>,
   /// make share i reuse the x of share j
   pub same_x: Vec<(u16, u16)>,
+  /// overwrite the x of share i with a special value: 0 = zero, 1 = one, 2 = p-1
+  #[serde(default)]
+  pub special_x: Vec<(u16, u8)>,
   /// rewrite the threshold word of every share to this value
   pub force_threshold: Option<u32>,
   /// an honest group to mix in: (t, count)
@@ -94,13 +97,15 @@ fn rec_strat(_t: Tier) -> BoxedStrategy<RecCase> {
   (
     vec(prop_oneof![5 => model_share(), 1 => honest_share()], 0..6),
     vec((any::<u16>(), any::<u16>()), 0..3),
+    vec((any::<u16>(), 0u8..3), 0..3),
     proptest::option::weighted(0.5, prop_oneof![Just(0u32), Just(1u32), Just(2u32), Just(3u32), Just(u32::MAX), Just(1u32 << 31)]),
     proptest::option::weighted(0.3, (1u32..5, 1u8..6)),
     any::<bool>(),
   )
-    .prop_map(|(shares, same_x, force_threshold, honest_group, honest_first)| RecCase {
+    .prop_map(|(shares, same_x, special_x, force_threshold, honest_group, honest_first)| RecCase {
       shares,
       same_x,
+      special_x,
       force_threshold,
       honest_group,
       honest_first,
@@ -125,6 +130,25 @@ fn rec_oracle(c: &RecCase, st: &mut Stats) -> Result<(), String> {
         }
       }
     }
+  }
+  for (i, v) in &c.special_x {
+    if !enc.is_empty() {
+      let i = idx(*i, enc.len());
+      if let Some(f) = layout::share_fields(&enc[i]) {
+        if f.s.len() >= 24 {
+          let x = match v % 3 {
+            0 => [0u8; 24],
+            1 => crate::bigmodel::le24(&num_bigint::BigUint::from(1u8)),
+            _ => crate::bigmodel::le24(&(crate::bigmodel::p() - 1u32)),
+          };
+          let r = f.x();
+          enc[i][r].copy_from_slice(&x);
+        }
+      }
+    }
+  }
+  if !c.special_x.is_empty() {
+    st.class("special-x");
   }
   if let Some(t) = c.force_threshold {
     for e in enc.iter_mut() {
